@@ -1,6 +1,7 @@
 import LenaModel.Model.C16
 import LenaModel.Model.C16X
 import LenaModel.Lemmas.C16
+import LenaModel.Lemmas.C16Acc
 /-! # C16 — lemmas about the extended model (`Model/C16X.lean`)
 
 * never-raising elements and generators iterated where they are created: the extended model *is* the
@@ -78,6 +79,121 @@ theorem flushX_allGen (e : ElX σ α β) : ∀ (l : List (Pend β)) (el : σ), a
     simp [flushX, iterReq, this]
   | .done _ :: _, _, h => by simp [allGen] at h
 
+theorem outsX_append (a b : List (CallObs β)) : outsX (a ++ b) = outsX a ++ outsX b := by
+  simp [outsX]
+
+theorem traceOpsX_append (e : ElX σ α β) (ev : Eval) (N : Nat) (rst bi yor : Bool) :
+    ∀ (a b : List (OpX α)) (s : StX σ α β),
+    traceOpsX e ev N rst bi yor (a ++ b) s =
+      ((traceOpsX e ev N rst bi yor a s).1 ++ (traceOpsX e ev N rst bi yor b (traceOpsX e ev N rst bi yor a s).2).1,
+       (traceOpsX e ev N rst bi yor b (traceOpsX e ev N rst bi yor a s).2).2)
+  | [], _, _ => rfl
+  | .fill x :: r, b, s => by simp [traceOpsX, traceOpsX_append e ev N rst bi yor r b]
+  | .request :: r, b, s => by simp [traceOpsX, traceOpsX_append e ev N rst bi yor r b]
+  | .reset :: r, b, s => by simp [traceOpsX, traceOpsX_append e ev N rst bi yor r b]
+
+/-- fills yield nothing -/
+theorem outsX_fills (e : ElX σ α β) (ev : Eval) (N : Nat) (rst bi yor : Bool) : ∀ (l : List α) (s : StX σ α β),
+    outsX (traceOpsX e ev N rst bi yor (l.map OpX.fill) s).1 = []
+  | [], _ => rfl
+  | x :: r, s => by
+    simp only [List.map_cons, traceOpsX, outsX, List.flatMap_cons, Option.getD_none, List.nil_append]
+    exact outsX_fills e ev N rst bi yor r _
+
+/-! `request` of the extended model as its four consecutive steps -/
+
+def xStep1 (e : ElX σ α β) (bi : Bool) (s : StX σ α β) : List β × StX σ α β :=
+  (if bi then [] else (flushX e s.bufOut s.el).1,
+   if bi then s else { s with el := (flushX e s.bufOut s.el).2, bufOut := [] })
+def xStep2 (e : ElX σ α β) (N : Nat) (rst : Bool) (s : StX σ α β) : List β × StX σ α β :=
+  if s.nCount = N then emitX e rst s else ([], s)
+def xStep3 (e : ElX σ α β) (N : Nat) (rst bi : Bool) (s : StX σ α β) : List β × StX σ α β × Bool :=
+  if bi then drainX e N rst s.bufIn { s with bufIn := [] } else ([], s, false)
+def xStep4 (e : ElX σ α β) (rst yor : Bool) (s : StX σ α β) : List β × StX σ α β :=
+  if yor && s.nCount != 0 then emitX e rst s else ([], s)
+
+theorem requestX_steps (e : ElX σ α β) (N : Nat) (rst bi yor : Bool) (s : StX σ α β) :
+    requestX e N rst bi yor s =
+      if (xStep3 e N rst bi (xStep2 e N rst (xStep1 e bi s).2).2).2.2 then
+        ((xStep1 e bi s).1 ++ (xStep2 e N rst (xStep1 e bi s).2).1 ++ (xStep3 e N rst bi (xStep2 e N rst (xStep1 e bi s).2).2).1,
+         (xStep3 e N rst bi (xStep2 e N rst (xStep1 e bi s).2).2).2.1, true)
+      else
+        ((xStep1 e bi s).1 ++ (xStep2 e N rst (xStep1 e bi s).2).1 ++ (xStep3 e N rst bi (xStep2 e N rst (xStep1 e bi s).2).2).1 ++
+            (xStep4 e rst yor (xStep3 e N rst bi (xStep2 e N rst (xStep1 e bi s).2).2).2.1).1,
+         (xStep4 e rst yor (xStep3 e N rst bi (xStep2 e N rst (xStep1 e bi s).2).2).2.1).2, false) := by
+  cases bi <;> rfl
+
+/-! ### what `_buffer_out` holds -/
+
+theorem drainX_bufOut (e : ElX σ α β) (N : Nat) (rst : Bool) : ∀ (l : List α) (s : StX σ α β),
+    (drainX e N rst l s).2.1.bufOut = s.bufOut
+  | [], _ => rfl
+  | x :: r, s => by
+    simp only [drainX]
+    split
+    · rfl
+    · split
+      · exact drainX_bufOut e N rst r _
+      · exact drainX_bufOut e N rst r _
+
+/-- after `request()` (also one that ended with `LenaStopFill`) `_buffer_out` is empty; with
+`buffer_input` it is not used -/
+theorem requestX_bufOut (e : ElX σ α β) (N : Nat) (rst bi yor : Bool) (s : StX σ α β) :
+    (requestX e N rst bi yor s).2.1.bufOut = if bi then s.bufOut else [] := by
+  rw [requestX_steps]
+  have h1 : (xStep1 e bi s).2.bufOut = if bi then s.bufOut else [] := by cases bi <;> rfl
+  have h2 : ∀ t : StX σ α β, (xStep2 e N rst t).2.bufOut = t.bufOut := by
+    intro t; unfold xStep2; split <;> rfl
+  have h3 : ∀ t : StX σ α β, (xStep3 e N rst bi t).2.1.bufOut = t.bufOut := by
+    intro t; unfold xStep3; split
+    · exact drainX_bufOut e N rst _ _
+    · rfl
+  have h4 : ∀ t : StX σ α β, (xStep4 e rst yor t).2.bufOut = t.bufOut := by
+    intro t; unfold xStep4; split <;> rfl
+  split
+  · simp only [h3, h2, h1]
+  · simp only [h4, h3, h2, h1]
+
+/-- what a history leaves in `_buffer_out`, by where the adapter iterates the generators: results only
+(`atCall`), generator objects only (`atRequest`) -/
+def bufKind (ev : Eval) (l : List (Pend β)) : Bool :=
+  match ev with
+  | .atCall => allDone l
+  | .atRequest => allGen l
+
+theorem bufKind_nil (ev : Eval) : bufKind ev ([] : List (Pend β)) = true := by cases ev <;> rfl
+
+theorem fillX_bufKind (e : ElX σ α β) (ev : Eval) (N : Nat) (rst bi : Bool) (s : StX σ α β) (x : α)
+    (h : bufKind ev s.bufOut = true) : bufKind ev (fillX e ev N rst bi s x).1.bufOut = true := by
+  unfold fillX
+  by_cases hn : s.nCount = N
+  · cases bi with
+    | true => simpa [hn] using h
+    | false =>
+      simp only [hn, if_true, Bool.false_eq_true, if_false]
+      cases ev with
+      | atCall =>
+        simp only [bufKind] at h ⊢
+        split <;> simp [allDone_append, h, allDone]
+      | atRequest =>
+        simp only [bufKind] at h ⊢
+        split <;> simp [allGen_append, h, allGen]
+  · simp only [hn, if_false]
+    split <;> exact h
+
+theorem traceOpsX_bufKind (e : ElX σ α β) (ev : Eval) (N : Nat) (rst bi yor : Bool) :
+    ∀ (ops : List (OpX α)) (s : StX σ α β), bufKind ev s.bufOut = true →
+    bufKind ev (traceOpsX e ev N rst bi yor ops s).2.bufOut = true
+  | [], _, h => h
+  | .fill x :: r, s, h => traceOpsX_bufKind e ev N rst bi yor r _ (fillX_bufKind e ev N rst bi s x h)
+  | .request :: r, s, h => by
+    apply traceOpsX_bufKind e ev N rst bi yor r
+    rw [requestX_bufOut]
+    split
+    · exact h
+    · exact bufKind_nil ev
+  | .reset :: r, s, h => traceOpsX_bufKind e ev N rst bi yor r _ h
+
 /-! ### never-raising elements, generators iterated at once -/
 
 section
@@ -129,6 +245,138 @@ theorem drainX_ofEl : ∀ (l : List α) (s : StX σ α β),
     · have hn' : ¬ s.erase.nCount + 1 = N := hn
       simp only [hn, hn', if_false]
       exact drainX_ofEl r { s with el := e.fill s.el x, nCount := s.nCount + 1 }
+
+
+end
+
+section
+variable (e : El σ α β) (N : Nat) (rst bi yor : Bool)
+
+theorem xStep1_ofEl (s : StX σ α β) (hd : allDone s.bufOut = true) :
+    (xStep1 (ElX.ofEl e) bi s).1 = (reqStep1 bi s.erase).1 ∧
+    (xStep1 (ElX.ofEl e) bi s).2.erase = (reqStep1 bi s.erase).2 ∧
+    allDone (xStep1 (ElX.ofEl e) bi s).2.bufOut = true := by
+  cases bi with
+  | true => exact ⟨rfl, rfl, hd⟩
+  | false =>
+    have hf := flushX_allDone (ElX.ofEl e) s.bufOut s.el hd
+    simp only [xStep1, reqStep1, Bool.false_eq_true, if_false, hf]
+    exact ⟨rfl, rfl, rfl⟩
+
+theorem xStep2_ofEl (t : StX σ α β) :
+    (xStep2 (ElX.ofEl e) N rst t).1 = (reqStep2 e N rst t.erase).1 ∧
+    (xStep2 (ElX.ofEl e) N rst t).2.erase = (reqStep2 e N rst t.erase).2 ∧
+    (xStep2 (ElX.ofEl e) N rst t).2.bufOut = t.bufOut := by
+  unfold xStep2 reqStep2
+  have hcnt : t.erase.nCount = t.nCount := rfl
+  by_cases hn : t.nCount = N
+  · rw [if_pos hn, if_pos (hcnt.trans hn)]; exact ⟨rfl, rfl, rfl⟩
+  · rw [if_neg hn, if_neg (by rw [hcnt]; exact hn)]; exact ⟨rfl, rfl, rfl⟩
+
+theorem xStep3_ofEl (t : StX σ α β) :
+    (xStep3 (ElX.ofEl e) N rst bi t).1 = (reqStep3 e N rst bi t.erase).1 ∧
+    (xStep3 (ElX.ofEl e) N rst bi t).2.1.erase = (reqStep3 e N rst bi t.erase).2 ∧
+    (xStep3 (ElX.ofEl e) N rst bi t).2.2 = false ∧
+    (xStep3 (ElX.ofEl e) N rst bi t).2.1.bufOut = t.bufOut := by
+  cases bi with
+  | false => exact ⟨rfl, rfl, rfl, rfl⟩
+  | true =>
+    simp only [xStep3, reqStep3, if_true]
+    exact drainX_ofEl e N rst t.bufIn { t with bufIn := [] }
+
+theorem xStep4_ofEl (t : StX σ α β) :
+    (xStep4 (ElX.ofEl e) rst yor t).1 = (reqStep4 e rst yor t.erase).1 ∧
+    (xStep4 (ElX.ofEl e) rst yor t).2.erase = (reqStep4 e rst yor t.erase).2 ∧
+    (xStep4 (ElX.ofEl e) rst yor t).2.bufOut = t.bufOut := by
+  unfold xStep4 reqStep4
+  have hcnt : t.erase.nCount = t.nCount := rfl
+  rw [hcnt]
+  by_cases hc : (yor && t.nCount != 0) = true
+  · rw [if_pos hc, if_pos hc]; exact ⟨rfl, rfl, rfl⟩
+  · rw [if_neg hc, if_neg hc]; exact ⟨rfl, rfl, rfl⟩
+
+/-- for a never-raising element whose generators are iterated where they are created, `request` of the
+extended model is `request` of `Model/C16.lean` -/
+theorem requestX_ofEl (s : StX σ α β) (hd : allDone s.bufOut = true) :
+    (requestX (ElX.ofEl e) N rst bi yor s).1 = (requestR e N rst bi yor s.erase).1 ∧
+    (requestX (ElX.ofEl e) N rst bi yor s).2.1.erase = (requestR e N rst bi yor s.erase).2 ∧
+    (requestX (ElX.ofEl e) N rst bi yor s).2.2 = false ∧
+    allDone (requestX (ElX.ofEl e) N rst bi yor s).2.1.bufOut = true := by
+  rw [requestX_steps, requestR_steps]
+  obtain ⟨a1, a2, a3⟩ := xStep1_ofEl e bi s hd
+  obtain ⟨b1, b2, b3⟩ := xStep2_ofEl e N rst (xStep1 (ElX.ofEl e) bi s).2
+  obtain ⟨c1, c2, c3, c4⟩ := xStep3_ofEl e N rst bi (xStep2 (ElX.ofEl e) N rst (xStep1 (ElX.ofEl e) bi s).2).2
+  obtain ⟨d1, d2, d3⟩ := xStep4_ofEl e rst yor
+    (xStep3 (ElX.ofEl e) N rst bi (xStep2 (ElX.ofEl e) N rst (xStep1 (ElX.ofEl e) bi s).2).2).2.1
+  rw [a2] at b1 b2
+  rw [b2] at c1 c2
+  rw [c2] at d1 d2
+  rw [c3]
+  simp only [Bool.false_eq_true, if_false]
+  refine ⟨by rw [a1, b1, c1, d1], d2, trivial, ?_⟩
+  rw [d3, c4, b3]; exact a3
+
+
+/-- a history of `Model/C16.lean` as a history of the extended model -/
+def Op.toX : Op α → OpX α
+  | .fill x => .fill x
+  | .request => .request
+
+/-- **conservative extension**: on never-raising elements, with generators iterated where they are
+created and without `reset()` calls, the extended model shows exactly what `traceOps`/`runOps` show, and
+never `LenaStopFill` -/
+theorem traceOpsX_ofEl : ∀ (ops : List (Op α)) (s : StX σ α β), allDone s.bufOut = true →
+    (traceOpsX (ElX.ofEl e) .atCall N rst bi yor (ops.map Op.toX) s).1.map
+        (fun c => (c.out, c.nCount, c.lenIn, c.lenOut)) = traceOps e N rst bi yor ops s.erase ∧
+    (∀ c ∈ (traceOpsX (ElX.ofEl e) .atCall N rst bi yor (ops.map Op.toX) s).1, c.raised = false) ∧
+    (traceOpsX (ElX.ofEl e) .atCall N rst bi yor (ops.map Op.toX) s).2.erase = (runOps e N rst bi yor ops s.erase).2 ∧
+    outsX (traceOpsX (ElX.ofEl e) .atCall N rst bi yor (ops.map Op.toX) s).1 = (runOps e N rst bi yor ops s.erase).1.flatten
+  | [], s, _ => ⟨rfl, by simp [traceOpsX], rfl, rfl⟩
+  | .fill x :: r, s, hd => by
+    obtain ⟨f1, f2, f3⟩ := fillX_ofEl e N rst bi s x
+    have hd' := f3 hd
+    obtain ⟨i1, i2, i3, i4⟩ := traceOpsX_ofEl r (fillX (ElX.ofEl e) .atCall N rst bi s x).1 hd'
+    rw [f2] at i1 i3 i4
+    simp only [List.map_cons, Op.toX, traceOpsX, traceOps, runOps]
+    refine ⟨?_, ?_, i3, ?_⟩
+    · rw [i1]
+      congr 1
+      have hl := pendLen_allDone _ hd'
+      rw [← erase_bufOut, f2] at hl
+      rw [hl]
+      have : (fillX (ElX.ofEl e) Eval.atCall N rst bi s x).1.nCount = (fillR e N rst bi s.erase x).nCount := by
+        rw [← f2]; rfl
+      have hb : (fillX (ElX.ofEl e) Eval.atCall N rst bi s x).1.bufIn = (fillR e N rst bi s.erase x).bufIn := by
+        rw [← f2]; rfl
+      rw [this, hb]
+    · intro c hc
+      rcases List.mem_cons.mp hc with rfl | hc
+      · exact f1
+      · exact i2 c hc
+    · simpa [outsX] using i4
+  | .request :: r, s, hd => by
+    obtain ⟨q1, q2, q3, q4⟩ := requestX_ofEl e N rst bi yor s hd
+    obtain ⟨i1, i2, i3, i4⟩ := traceOpsX_ofEl r (requestX (ElX.ofEl e) N rst bi yor s).2.1 q4
+    rw [q2] at i1 i3 i4
+    simp only [List.map_cons, Op.toX, traceOpsX, traceOps, runOps]
+    refine ⟨?_, ?_, i3, ?_⟩
+    · rw [i1]
+      congr 1
+      have hl := pendLen_allDone _ q4
+      rw [← erase_bufOut, q2] at hl
+      rw [hl, q1]
+      have : (requestX (ElX.ofEl e) N rst bi yor s).2.1.nCount = (requestR e N rst bi yor s.erase).2.nCount := by
+        rw [← q2]; rfl
+      have hb : (requestX (ElX.ofEl e) N rst bi yor s).2.1.bufIn = (requestR e N rst bi yor s.erase).2.bufIn := by
+        rw [← q2]; rfl
+      rw [this, hb]
+    · intro c hc
+      rcases List.mem_cons.mp hc with rfl | hc
+      · exact q3
+      · exact i2 c hc
+    · simp only [outsX, List.flatMap_cons, Option.getD_some, List.flatten_cons] at i4 ⊢
+      rw [q1]
+      congr 1
 
 end
 end Lena.C16
